@@ -9,8 +9,9 @@ A case is
    'plugins': [[label, before, creq, cdata, up, alog, dns], … | ['A']],   requested order
    'evs': [event, …]}
 label = number of a generated recording subclass of HttpProxyBasePlugin; ['A'] requests AuthPlugin again.
-actions: 'P' return the argument | 'M' modify it visibly (request: header X-P<label>; bytes: append
-  [<label>]; access-log context: key pk<label>) | 'D' return None | 'X' raise HttpProtocolException |
+actions: 'P' return the argument | 'M' modify it visibly IN PLACE and return the same object (request: header
+  X-P<label>; bytes: append [<label>]; access-log context: key pk<label>) | 'N' the same modification made on a
+  NEW object that is returned (fresh HttpParser / dict; the argument is left untouched) | 'D' return None | 'X' raise HttpProtocolException |
   ['R', status, reason, headers, body] raise HttpRequestRejected(...)     (dns: 'P' | 'I' resolve to 10.0.0.<label>)
 events:
   ['F', req, ok, cuts]  first request written to the client socket in the segments cut at `cuts`;
@@ -19,12 +20,19 @@ events:
   ['C', req, cuts]      follow-up client bytes (a complete request, segmented at cuts)
   ['U', hex]  upstream sends bytes      ['UE'] upstream closes
   ['CE'] client half-closes             ['CA'] client disappears
+  ['CR'] client resets the connection (RST): afterwards recv/send/shutdown on the proxy side of the client
+         socket fail like on a reset TCP connection — in particular conn.shutdown() inside handler.shutdown()
+         raises OSError(ENOTCONN).  With 'tcp': 1 in the case the client connection is a real loopback TCP
+         pair and the reset is a real SO_LINGER-0 close; otherwise a thin scripted wrapper around the socketpair
+         end raises the errors observed on real TCP.
   ['FL'] client socket writable: one queued item is written
 req = {'m','form','host','port','path','v','h': [header lines], 'b': body}  (latin-1 strings)
 Every event is delivered through handler.get_events()/handle_events(R, W) like Threadless does, the
 upstream side is flushed after each event, and handler.shutdown() is called exactly once at the end.
 """
 import re
+import errno
+import select
 import socket
 import asyncio
 import logging
@@ -178,6 +186,12 @@ def plugin_class(prog):
             if act == 'M':
                 request.add_header(b'X-P%d' % label, val)
                 return request
+            if act == 'N':
+                import copy
+                fresh = copy.copy(request)                  # a different HttpParser object …
+                fresh.headers = dict(request.headers or {})  # … whose edits do not touch the argument
+                fresh.add_header(b'X-P%d' % label, val)
+                return fresh
             if act == 'D':
                 return None
             _raise(act)
@@ -188,7 +202,7 @@ def plugin_class(prog):
             CALLS.append('c%d.%s.%s' % (label, hook, hx(bytes(raw))))
             if act == 'P':
                 return raw
-            if act == 'M':
+            if act in ('M', 'N'):
                 return memoryview(bytes(raw) + tag)
             if act == 'D' or not can_raise:
                 return None
@@ -202,6 +216,10 @@ def plugin_class(prog):
         if a_alog == 'M':
             context['pk%d' % label] = '1'
             return context
+        if a_alog == 'N':
+            fresh = dict(context)
+            fresh['pk%d' % label] = '1'
+            return fresh
         return None
 
     def on_upstream_connection_close(self):
@@ -285,6 +303,52 @@ def label_of(klass):
 
 # ---------------------------------------------------------------- the simulator
 
+class ResettableSocket:
+    """The proxy's end of the client socketpair.  Everything is the real socket's until reset() is called;
+    from then on recv / send / shutdown fail exactly as they do on a real TCP socket whose peer sent RST
+    (ECONNRESET, EPIPE, ENOTCONN — observed on this kernel, and cross-checked by the 'tcp' cases)."""
+
+    def __init__(self, real):
+        self._real = real
+        self._reset = False
+
+    def reset(self):
+        self._reset = True
+
+    def recv(self, *a):
+        if self._reset:
+            raise ConnectionResetError(errno.ECONNRESET, 'Connection reset by peer')
+        return self._real.recv(*a)
+
+    def send(self, *a):
+        if self._reset:
+            raise BrokenPipeError(errno.EPIPE, 'Broken pipe')
+        return self._real.send(*a)
+
+    def shutdown(self, how):
+        if self._reset:
+            raise OSError(errno.ENOTCONN, 'Transport endpoint is not connected')
+        return self._real.shutdown(how)
+
+    def __getattr__(self, name):
+        return getattr(self._real, name)
+
+
+def tcp_pair():
+    ls = socket.socket()
+    try:
+        ls.bind(('127.0.0.1', 0))
+        ls.listen(1)
+        c = socket.socket()
+        c.connect(ls.getsockname())
+        p, _ = ls.accept()
+    finally:
+        ls.close()
+    for x in (c, p):
+        x.setsockopt(socket.IPPROTO_TCP, socket.TCP_NODELAY, 1)
+    return c, p
+
+
 class Sim:
     def __init__(self, case):
         from proxy.http.handler import HttpProtocolHandler
@@ -293,7 +357,13 @@ class Sim:
         self.flags = get_flags(case)
         self.order = [label_of(k) for k in self.flags.plugins.get(b'HttpProxyBasePlugin', [])]
         self.loop = asyncio.new_event_loop()
-        self.client, proxy_end = socket.socketpair()
+        self.tcp = bool(case.get('tcp'))
+        if self.tcp:
+            self.client, proxy_end = tcp_pair()
+        else:
+            self.client, real = socket.socketpair()
+            proxy_end = ResettableSocket(real)
+        self.proxy_end = proxy_end
         self.client.setblocking(False)
         self.handler = HttpProtocolHandler(HttpClientConnection(proxy_end, ('127.0.0.1', 50000)), flags=self.flags)
         self.cfd = proxy_end.fileno()
@@ -302,6 +372,7 @@ class Sim:
         self.connect_ok = True
         self.down = False
         self.client_open = True
+        self.expect_client = False
 
     def fake_connect(self, addr, source_address=None):
         CALLS.append('conn.%s.%d' % (hx(str(addr[0]).encode()), addr[1]))
@@ -325,6 +396,10 @@ class Sim:
         ev = self.registered()
         r = [fd for fd in rs if ev.get(fd, 0) & 1]
         w = [fd for fd in ws if ev.get(fd, 0) & 2]
+        if self.tcp and self.cfd in r:
+            select.select([self.cfd], [], [], 2.0)       # loopback TCP delivery is not instantaneous
+        if self.tcp and self.cfd in w:
+            self.expect_client = True
         if self.run(self.handler.handle_events(r, w)):
             self.down = True
             return True
@@ -354,6 +429,9 @@ class Sim:
             self.deliver([], [self.cfd])
 
     def read_peer(self, s):
+        if self.tcp and s is self.client and self.expect_client:
+            select.select([s], [], [], 0.05)
+            self.expect_client = False
         out = b''
         while True:
             try:
@@ -367,9 +445,11 @@ class Sim:
 
     def event(self, ev):
         """one non-request event; returns (tokens, upstream bytes, client bytes, teardown happened here)"""
-        if self.down:
-            return [], b'', b'', False
         k = ev[0]
+        if self.down:
+            if k == 'CR' and self.client_open:
+                self.reset_client()
+            return [], b'', b'', False
         start = len(CALLS)
         pre, read_client = b'', True
         if k == 'U':
@@ -394,10 +474,28 @@ class Sim:
             read_client = False
             self.deliver([self.cfd], [])
             self.pump_client()
+        elif k == 'CR':
+            pre = self.read_peer(self.client)
+            self.reset_client()
+            read_client = False
+            self.deliver([self.cfd], [])
+            self.pump_client()
         elif k == 'FL':
             self.deliver([], [self.cfd])
         toks, up, cl = self.finish(start, pre, read_client)
         return toks, up, cl, self.down
+
+    def reset_client(self):
+        """the client's TCP stack answers with RST from now on"""
+        if self.tcp:
+            import struct
+            self.client.setsockopt(socket.SOL_SOCKET, socket.SO_LINGER, struct.pack('ii', 1, 0))
+            self.client.close()
+            select.select([self.cfd], [], [], 2.0)       # until the RST has arrived
+        else:
+            self.client.close()
+            self.proxy_end.reset()
+        self.client_open = False
 
     def finish(self, start, pre_cl=b'', read_client=True):
         self.pump_upstream()
@@ -542,6 +640,8 @@ def ev_strs(ev):
         return ['C:%s:None' % hx(s) for s in segs[:-1]] + ['C:%s:%s' % (hx(segs[-1]), req_model(ev[1]))]
     if k == 'U':
         return ['U:' + (ev[1] or '-')]
+    if k == 'CR':
+        return ['CA']       # for the model a reset is a vanished client; what differs is what shutdown() meets
     return [k]
 
 
@@ -622,7 +722,7 @@ def tok_parts(t):
 
 
 def apply_mod(label, hook, dig):
-    """what the 'M' action of plugin <label> turns the observed argument into"""
+    """what the 'M' / 'N' action of plugin <label> turns the observed argument into"""
     if hook in ('before', 'creq'):
         lines = [] if dig == '-' else bytes.fromhex(dig).split(b'\n')
         key = b'X-P' + label.encode()
@@ -675,7 +775,7 @@ def check_chain(case, order, toks, hook, first=None, auth_ok=True):
         else:
             act = prog_of(case, label)[idx]
         last = n == len(calls) - 1
-        if act in ('P', 'M'):
+        if act in ('P', 'M', 'N'):
             out = dig if act == 'P' else apply_mod(label, hook, dig)
             if last:
                 if n != len(order) - 1:
@@ -731,7 +831,7 @@ def judge(case, order, groups, sd):
         return 'lifecycle-on_upstream_connection_close-not-exactly-once-each-in-order'
     if len([t for t in sd if t.startswith('dlog.')]) != (1 if how in ('done', 'none') else 0):
         return 'lifecycle-default-access-log-wrong'
-    lost = any(e[0] == 'CA' for e in evs)       # a vanished client may lose what was still queued
+    lost = any(e[0] in ('CA', 'CR') for e in evs)       # a vanished client may lose what was still queued
     allcl = b''.join(g[2] for g in groups)
     # first request
     ev = evs[0]
